@@ -929,8 +929,8 @@ class WorkflowConductor(object):
             self.workflow_state.add_staged_task(
                 task_id,
                 route,
-                ctxs=task_state_entry["ctxs"]["in"],
-                prev=task_state_entry["prev"],
+                ctxs=json_util.deepcopy(task_state_entry["ctxs"]["in"]),
+                prev=json_util.deepcopy(task_state_entry["prev"]),
                 retry=task_state_entry["retry"],
                 ready=True,
             )
